@@ -277,7 +277,45 @@ var (
 	onces  []*Once
 	maps   []*Map
 	resets []func() // one-shot resets registered by other shims (vatomic); dropped after they ran
+
+	// Baseline: what the package-level objects held when the harness took over (after the library's own init
+	// functions ran). A reset puts an object back to that, not to its zero value: a registry published through an
+	// atomic pointer in init(), or a sync.Map filled there, is part of the state a fresh process starts from.
+	captures   []func() // capture actions of the objects met before Baseline
+	baselined  bool
+	mapBase    = map[*Map][][2]any{}
+	onceAtBase = map[*Once]bool{}
 )
+
+// RegisterCapture adds a capture action that Baseline runs once (used by the atomic shim). Objects first met after
+// Baseline have no captured value and are reset to zero.
+//
+//go:norace
+func RegisterCapture(f func()) {
+	if !baselined {
+		captures = append(captures, f)
+	}
+}
+
+// Baseline records the current content of every shimmed object met so far as the state resets return to. Only the
+// first call counts.
+//
+//go:norace
+func Baseline() {
+	if baselined {
+		return
+	}
+	baselined = true
+	for _, f := range captures {
+		f()
+	}
+	captures = nil
+	for _, m := range maps {
+		var l [][2]any
+		m.m.Range(func(k, v any) bool { l = append(l, [2]any{k, v}); return true })
+		mapBase[m] = l
+	}
+}
 
 // RegisterReset adds a reset action for ResetAll (used by the atomic shim).
 //
@@ -426,6 +464,9 @@ func ResetAll() {
 	}
 	for _, m := range maps {
 		m.m.Range(func(k, _ any) bool { m.m.Delete(k); return true })
+		for _, kv := range mapBase[m] {
+			m.m.Store(kv[0], kv[1])
+		}
 	}
 	rs := resets
 	resets = nil
